@@ -464,7 +464,12 @@ def r_C24(root):
     for x in sorted(lb - la - {"/"}): out.append(Finding("C24", "C24.b", "textx/lang.py", "vocabulary", repr(x), "literal of the self-hosted grammar missing from the grammar compiler"))
     # a disagreement about the tokens of the import statement is a defect of grammar imports (C25) too
     for f in list(out):
+        if f.prop != "C24": continue
         if "import" in f.func.lower(): out.append(Finding("C25", f.rule, f.file, f.func, f.construct, f.msg, f.witness))
+        # the tokens and shapes of RREL expressions: what the printer emits must be what the parser reads (C12)
+        if f.rule == "C24.a" and "rrel" in f.func.lower() and not f.construct.startswith("blanks before"): out.append(Finding("C12", f.rule, f.file, f.func, f.construct, f.msg, f.witness))
+        # the two grammars disagree on the SHAPE of a rule: one of them accepts a text the other refuses - an invalid grammar is accepted or a valid one refused (C23)
+        if f.rule == "C24.a" and f.construct.startswith("shape:"): out.append(Finding("C23", f.rule, f.file, f.func, f.construct, f.msg, f.witness))
     return len(d.paired), out
 ALL = [r_C24]
 if __name__ == "__main__":
